@@ -99,13 +99,62 @@ def run(ctx):
                         if glob_match('*PartialEq*::eq', nm) or glob_match('*::get', nm) or glob_match('*::contains*', nm) or 'registered_party' in nm:
                             influences = True
                             detail.append(nm)
-        inst = 'MultiSigner::verify_single_signature: signature.party_id influences the verification outcome'
-        if influences:
-            R.ok('b', 'R5', inst, str(detail[:3]), cv.loc())
+        # ... and it must be bound to the KEY the signature is verified with: either the key is looked up by the
+        # party id, or the key found at the slot is compared with the key registered by that party
+        bound = False
+        body = cv.body
+        pstarts = set()
+        for bb in body.blocks:
+            if bb.cleanup:
+                continue
+            for (_, pl, rv) in bb.stmts:
+                for (l, place) in rvalue_reads(rv):
+                    for pe in place[1]:
+                        if isinstance(pe, tuple) and pe[0] == 'f' and pe[2] == 'party_id' and pe[3] and pe[3].endswith('::SingleSignature'):
+                            pstarts.add(pl[0])
+        pder = flows_forward(body, pstarts, True, err_context_receiver_only=True, mut_refs_only=True) if pstarts else set()
+        kstarts = {c.dest[0] for c in ctx.call_sites(body, ['*::get_concatenation_registered_party_for_index', '*Clerk*::get_*registered_party*'])}
+        # ... or with the slot itself (an equivalent repair: party -> slot, compared with the signature's signer_index)
+        for bb in body.blocks:
+            if bb.cleanup:
+                continue
+            for (_, pl, rv) in bb.stmts:
+                for (l, place) in rvalue_reads(rv):
+                    if any(isinstance(pe, tuple) and pe[0] == 'f' and pe[2] == 'signer_index' for pe in place[1]):
+                        kstarts.add(pl[0])
+        kder = flows_forward(body, kstarts, True, err_context_receiver_only=True, mut_refs_only=True) if kstarts else set()
+        for c in ctx.call_sites(body, ['mithril_stm::*::SingleSignature::verify']):
+            if len(c.args) > 2 and c.args[2][0] in ('copy', 'move') and c.args[2][1][0] in pder:
+                bound = True
+                detail.append('verification key looked up by party id')
+        for bi, bb in enumerate(body.blocks):
+            if bb.cleanup:
+                continue
+            cmp_dest = None
+            if bb.term[0] == 'call':
+                c = bb.term[1]
+                if any(glob_match('*PartialEq*::eq', n) or glob_match('*PartialEq*::ne', n) for n in c.names()) and len(c.args) == 2:
+                    ls = [a[1][0] for a in c.args if a[0] in ('copy', 'move')]
+                    if len(ls) == 2 and ((ls[0] in pder and ls[1] in kder and ls[1] not in pder) or (ls[1] in pder and ls[0] in kder and ls[0] not in pder)):
+                        cmp_dest = c.dest[0]
+            for (_, pl, rv) in bb.stmts:
+                if rv[0] == 'bin' and rv[1] in ('Eq', 'Ne'):
+                    ls = [o[1][0] for o in (rv[2], rv[3]) if o[0] in ('copy', 'move')]
+                    if len(ls) == 2 and ((ls[0] in pder and ls[1] in kder) or (ls[1] in pder and ls[0] in kder)):
+                        cmp_dest = pl[0]
+            if cmp_dest is not None:
+                dd = flows_forward(body, {cmp_dest}, True) | {cmp_dest}
+                if any(b2.term[0] == 'sw' and b2.term[1][0] in ('copy', 'move') and b2.term[1][1][0] in dd for b2 in body.blocks if not b2.cleanup):
+                    bound = True
+                    detail.append('slot key compared with the key registered by the party (bb%d)' % bi)
+        inst = 'MultiSigner::verify_single_signature: the key the signature is verified with is the key registered by signature.party_id'
+        if influences and bound:
+            R.ok('b', 'R5', inst, str(detail[-2:]), cv.loc())
         else:
             R.violation('b', 'R5', inst, 'verify_single_signature:party-binding',
-                        'single_signature.party_id flows only into error-context / log formatting: the key is looked up by signer_index alone, so a '
-                        'signature produced by registered party A verifies when submitted under the name of registered party B and is stored under B', cv.loc())
+                        'single_signature.party_id is not bound to the verification key (influences control: %s; key bound to the party: %s): the key is '
+                        'looked up by signer_index alone, so a signature produced by registered party A verifies when submitted under the name of '
+                        'registered party B and is stored under B' % (influences, bound), cv.loc())
         # key looked up by the slot embedded in the signature, in the clerk's (epoch) registration
         for c in ctx.call_sites(cv.body, ['*::get_concatenation_registered_party_for_index', '*Clerk*::get_*registered_party*']):
             og = fn_origins(cv, c.args[1], True)
